@@ -202,6 +202,15 @@ class StmtMixin:
     def assign(self, tgt, v: SV, st: State):
         if isinstance(tgt, ast.Name):
             declared = self.local_type(st, tgt.id)
+            if isinstance(declared, TDict) and isinstance(v.t, TConst) and v.const is not None and v.const.v == {}:
+                # `x = {}` for a local whose dict type the contract declares: the empty dict of that type
+                v = SV(declared, None, extra={
+                    "keys": z3.Empty(z3.SeqSort(sym.sort_of(declared.k))),
+                    "has": z3.K(sym.sort_of(declared.k), z3.BoolVal(False)),
+                    "val": sym.fresh(declared, "emptydict").extra["val"],
+                })
+                st.store[tgt.id] = v
+                return [(st, NORMAL)]
             if declared is not None and not (isinstance(v.t, TConst) and v.const is None and not isinstance(v.extra, list)):
                 try:
                     v = sym.coerce(self.reify(v), declared)
